@@ -586,22 +586,43 @@ func (e Ed) Candidates(r *rand.Rand, n int) [][]byte {
 
 // ------------------------------------------------------------------ Schnorr group of quadratic residues
 
-// QR is the subgroup of order Q of Z_P^*, P = 2Q+1, elements encoded as
-// fixed-width big-endian integers.
+// QR is the subgroup of order Q of Z_P^*, P = Q*R+1 (Schnorr / DSA-style
+// group), generated by G; elements are encoded as fixed-width big-endian
+// integers. R = 2 gives the group of quadratic residues.
 type QR struct {
-	P, Q *big.Int
+	Label   string
+	P, Q, G *big.Int
 }
 
+// NewQR is the residue group with cofactor 2 and generator 4 (kyber's QR512).
 func NewQR(q *big.Int) (*QR, error) {
 	p := new(big.Int).Lsh(q, 1)
 	p.Add(p, big.NewInt(1))
-	if !p.ProbablyPrime(32) || !q.ProbablyPrime(32) {
-		return nil, fmt.Errorf("QR: 2Q+1 or Q not prime")
-	}
-	return &QR{P: p, Q: q}, nil
+	return NewQRParams("QR", p, q, big.NewInt(4))
 }
 
-func (f *QR) Name() string { return "QR" }
+// NewQRParams certifies the parameters with math/big: P and Q prime,
+// Q | P-1, G != 1 of order Q.
+func NewQRParams(label string, p, q, g *big.Int) (*QR, error) {
+	if !p.ProbablyPrime(32) || !q.ProbablyPrime(32) {
+		return nil, fmt.Errorf("%s: P or Q not prime", label)
+	}
+	pm1 := new(big.Int).Sub(p, big.NewInt(1))
+	if new(big.Int).Mod(pm1, q).Sign() != 0 {
+		return nil, fmt.Errorf("%s: Q does not divide P-1", label)
+	}
+	if g.Cmp(big.NewInt(1)) <= 0 || g.Cmp(p) >= 0 || new(big.Int).Exp(g, q, p).Cmp(big.NewInt(1)) != 0 {
+		return nil, fmt.Errorf("%s: G is not an element of order Q", label)
+	}
+	return &QR{Label: label, P: p, Q: q, G: g}, nil
+}
+
+// Cofactor returns R = (P-1)/Q.
+func (f *QR) Cofactor() *big.Int {
+	return new(big.Int).Div(new(big.Int).Sub(f.P, big.NewInt(1)), f.Q)
+}
+
+func (f *QR) Name() string { return f.Label }
 func (f *QR) Size() int    { return (f.P.BitLen() + 7) / 8 }
 
 func (f *QR) Analyse(b []byte) Analysis {
@@ -611,13 +632,13 @@ func (f *QR) Analyse(b []byte) Analysis {
 	x := new(big.Int).Mod(v, f.P)
 	switch {
 	case x.Sign() == 0:
-		a.Mem = "off"
+		a.Mem = "off" // not a unit
 	case x.Cmp(big.NewInt(1)) == 0:
 		a.Mem = "id"
 	case new(big.Int).Exp(x, f.Q, f.P).Cmp(big.NewInt(1)) == 0:
 		a.Mem = "sub"
 	default:
-		a.Mem = "curve"
+		a.Mem = "curve" // a unit outside the order-Q subgroup
 	}
 	return a
 }
@@ -625,7 +646,7 @@ func (f *QR) Analyse(b []byte) Analysis {
 func (f *QR) SetBase(b []byte) error {
 	a := f.Analyse(b)
 	if len(b) != f.Size() || !a.Canonical() || a.Mem != "sub" {
-		return fmt.Errorf("QR: library base point not certified (%+v)", a)
+		return fmt.Errorf("%s: library base point not certified (%+v)", f.Label, a)
 	}
 	return nil
 }
@@ -634,19 +655,44 @@ func (f *QR) Candidates(r *rand.Rand, n int) [][]byte {
 	var out [][]byte
 	sz := f.Size()
 	maxv := new(big.Int).Lsh(big.NewInt(1), uint(8*sz))
+	if sz == 1 { // tiny group: every one-byte string
+		for v := 0; v < 256; v++ {
+			out = append(out, []byte{byte(v)})
+		}
+		return out
+	}
+	one := big.NewInt(1)
+	// a non-square, to build non-squares from squares
+	ns := big.NewInt(2)
+	for big.Jacobi(ns, f.P) != -1 {
+		ns.Add(ns, one)
+	}
 	var vals []*big.Int
-	for i := 0; i < 3*n; i++ {
+	for i := 0; i < 4*n; i++ {
+		k := randBelow(r, f.Q)
+		vals = append(vals, new(big.Int).Exp(f.G, k, f.P)) // subgroup member
 		v := randBelow(r, f.P)
-		if i%3 == 2 { // small values, so that v+P fits
+		if i%3 == 2 {
 			v.Rsh(v, 3)
 		}
 		sq := new(big.Int).Mul(v, v)
 		sq.Mod(sq, f.P)
-		vals = append(vals, sq)                                     // residue
-		vals = append(vals, new(big.Int).Sub(f.P, sq))              // non-residue (P = 3 mod 4)
-		vals = append(vals, new(big.Int).Rsh(randBelow(r, f.P), 2)) // small random
+		vals = append(vals, sq) // square: in the subgroup iff R = 2 (otherwise almost never)
+		nsq := new(big.Int).Mul(sq, ns)
+		vals = append(vals, nsq.Mod(nsq, f.P))                      // non-square
+		vals = append(vals, new(big.Int).Rsh(randBelow(r, f.P), 2)) // small random, so that v+P fits
 	}
-	vals = append(vals, new(big.Int), big.NewInt(1), big.NewInt(2), big.NewInt(3), big.NewInt(4), new(big.Int).Sub(f.P, big.NewInt(1)))
+	// small members, so that member + P fits in the encoding width
+	for i := 0; len(vals) < 40*n && i < 4000*n; i++ {
+		m := new(big.Int).Exp(f.G, randBelow(r, f.Q), f.P)
+		if new(big.Int).Add(m, f.P).Cmp(maxv) < 0 {
+			vals = append(vals, m)
+			if i > 200 && len(vals) > 24*n {
+				break
+			}
+		}
+	}
+	vals = append(vals, new(big.Int), big.NewInt(1), big.NewInt(2), big.NewInt(3), big.NewInt(4), new(big.Int).Sub(f.P, one))
 	for _, v := range vals {
 		out = append(out, beBytes(v, sz))
 		w := new(big.Int).Add(v, f.P)
@@ -654,6 +700,6 @@ func (f *QR) Candidates(r *rand.Rand, n int) [][]byte {
 			out = append(out, beBytes(w, sz))
 		}
 	}
-	out = append(out, beBytes(new(big.Int).Sub(maxv, big.NewInt(1)), sz))
+	out = append(out, beBytes(new(big.Int).Sub(maxv, one), sz))
 	return out
 }
